@@ -646,13 +646,10 @@ UPGRADER:
 			}
 		case stateBodyTrailerHeaderValue:
 			switch c {
-			case ' ':
-				if p.headerValue == "" {
-					p.headerValue = string(data[start:i])
-				}
 			case '\r':
 				if p.headerValue == "" {
-					p.headerValue = string(data[start:i])
+					// a trailer value may contain blanks, only trim the trailing ones.
+					p.headerValue = strings.TrimRight(string(data[start:i]), " \t")
 				}
 				if len(p.trailer) == 0 {
 					return fmt.Errorf("invalid trailer '%v'", p.headerKey)
